@@ -458,3 +458,29 @@ package aml
 //@   ensures count: res == parseResultOk ==> walkDone
 //@   ensures result: res == parseResultOk || res == parseResultFailed
 //@   ensures wf: wfTree(p.objTree)
+
+// parseNamePathOrMethodCall, strict mode (deferred blocks): a name that resolves to a method
+// becomes a MethodCall scope into which exactly the declared number of argument objects - bits
+// [0:2] of the method's flags byte - is parsed; any other name parses no further object.
+// parseNextObject is seen here only as an event (ASSUMED abstraction).
+//@ ghost nextObjCalls uintptr
+//@ ghost declArgs uint8
+//@ ghost isCall bool
+//@ func (p *Parser) parseNextObject~callers() (res parseResult)
+//@   trusted
+//@   modifies *, nextObjCalls
+//@   ensures nextObjCalls == old(nextObjCalls) + 1
+//@ func (p *Parser) parseNamePathOrMethodCall() (res parseResult)
+//@   property C11
+//@   partial
+//@   requires p != nil && nextObjCalls < 0x1000000000000
+//@   modifies *, nextObjCalls, declArgs, isCall, walkDone
+//@   at entry: ghost isCall = false
+//@   at call scopeEnter 1: ghost isCall = true
+//@   at call scopeEnter 1: assert callScope: target.opcode == pOpMethod && arg(index) == curObj.index && curObj.opcode == pOpIntMethodCall && typeis(curObj.value, uint32) && unbox(curObj.value, uint32) == targetIndex
+//@   at call ArgAt 1: assert flagsArg: arg(obj) == target && arg(index) == 1
+//@   at after call ArgAt 1: ghost declArgs = uint8(unbox(result().value, uint64) & 7)
+//@   loop 1 (argIndex < argCount) invariant isCall && argCount == declArgs && argIndex <= argCount && nextObjCalls == old(nextObjCalls) + uintptr(argIndex)
+//@   at exit loop 1: ghost walkDone = argIndex == argCount
+//@   ensures args: res == parseResultOk && isCall ==> walkDone && nextObjCalls == old(nextObjCalls) + uintptr(declArgs)
+//@   ensures plain: res == parseResultOk && !isCall ==> nextObjCalls == old(nextObjCalls)
